@@ -219,6 +219,7 @@ def run_case(case):
             infok = None
             o["infok"] = err(e)
         o["two_step"], o["fresh"] = [], []
+        before = [[np.array(a, copy=True) for a in i] if i is not None else None for i in (info1, infok)]
         for di, (data, dd) in enumerate(dsets):
             fill = dd.get("fill", 0)
             if info1 is not None and infok is not None and (di == 0 or cfg.get("reuse", True)):
@@ -229,6 +230,12 @@ def run_case(case):
                 o["fresh"].append(fresh_all(case, src, tgt, data, dd, fill, cfg))
             else:
                 o["fresh"].append(None)
+        # the info must still be what it was after having been used on every dataset
+        same = True
+        for i, b in zip((info1, infok), before):
+            if i is not None:
+                same = same and all(np.array_equal(x, y, equal_nan=True) for x, y in zip(i, b))
+        o["info_unchanged_by_sampling"] = bool(same)
         runs.append(o)
     out["runs"] = runs
     return out
